@@ -31,6 +31,19 @@ CLAIMED["C09"] = ("kind/role flow analysis over linear forms of the MIR (char<->
     "two n-gram arms (window of its own kind), position/length forms, Model::new/TagTrainer::new/scorer constructor argument "
     "flows, Left/Inside/Right -> first/fill/last, bucket index agreement, bias provenance and shared quantiser. "
     "Numeric equality with liblinear's coefficients is not decided.", "DESIGN.md §4 C09")
+CLAIMED["C07"] = ("must-precede/path analysis on MIR (magic before payload, compare before decode), error-discipline analysis, guarded-index analysis, derive-symmetry table",
+    "Decides the structural necessary conditions of 'round-trips or is rejected, never panics': magic written first and compared whole "
+    "before decoding, a single bincode configuration, derived Encode/Decode on every model type, every fallible call propagated, "
+    "every range index on the caller's slice preceded by a length-implying check (or bounded by the decoder's consumed size), "
+    "remainder slice form. bincode's own behaviour on truncated payloads is trusted.", "DESIGN.md §4 C07")
+CLAIMED["C03"] = ("parser/writer table agreement derived by finite-domain abstract interpretation of both sides",
+    "Complete decision of the escape-set agreement between parse_tokenized and write_tokenized_text (surface and tag sites, escape "
+    "character, separators) and of the UTF-8 validity clause of the as_mut_vec region; twin agreement of the tag padding tails. "
+    "Value-level equality of the re-parsed sentence is not decided.", "DESIGN.md §4 C03")
+CLAIMED["C04"] = ("parser/writer table agreement derived by finite-domain abstract interpretation of both sides",
+    "Complete decision that every character the partial-annotation parser treats as syntax in annotation context is escaped by every "
+    "tag-emitting site of the writer, that the label<->symbol tables are inverse bijections (both writer copies), and that text "
+    "characters are literal on both sides. Value-level equality is not decided.", "DESIGN.md §4 C04")
 NOT_YET = {}
 
 def main():
